@@ -1804,6 +1804,9 @@ pub mod internal {
     /// Verification hooks (only with `--cfg fancy_regex_verif`).
     #[cfg(fancy_regex_verif)]
     pub use crate::vm::verif;
+    /// Verification hooks (only with `--cfg fancy_regex_verif`): per-node analysis results.
+    #[cfg(fancy_regex_verif)]
+    pub use crate::analyze::verif_facts_preorder;
 }
 
 #[cfg(test)]
